@@ -163,8 +163,9 @@ func fullAlphabet() []string {
 			out = append(out, fmt.Sprintf("o.%s: %s", k, v))
 		}
 	}
-	for k := range d2ast.StyleKeywords {
-		_ = k
+	// children and connections below a reserved keyword (the keyword's map then has edges and no primary key)
+	for _, k := range reservedSorted() {
+		out = append(out, fmt.Sprintf("o.%s.a -> o.%s.b", k, k), fmt.Sprintf("o.%s.a -> b", k), fmt.Sprintf("o.%s: {a -> b}", k), fmt.Sprintf("o.%s.a.b", k), fmt.Sprintf("(o.%s.a -> o.%s.b)[0].style.opacity: 1", k, k))
 	}
 	var sk []string
 	for k := range d2ast.StyleKeywords {
@@ -209,7 +210,7 @@ var c07Core = []string{
 func init() {
 	eng.Register(&eng.Check{
 		ID: "C07", Level: "exploration", Pre: WriteCorpusCache, HangBound: 120 * time.Second,
-		Rule: "token strings over Σ_t (len ≤ 3 quick / 4 thorough); statement sequences over the full-language alphabet (every reserved keyword × 18 value shapes, every style keyword × 7 shapes, d2-config keys × 10 shapes, 260 structural statements: globs × filters, vars/spreads, imports, boards, classes, underscores, special shapes) of length ≤ 2 and over the structural core of length ≤ 2 (quick) / 3 (thorough); all assignments of import statements to ≤3 files (every cycle length); non-ASCII names under glob patterns; a size family (14 generators × 10^1..10^4); corpus + single-token neighbours. Each compiled with an in-memory file set by d2compiler.Compile. Non-trivial: every compile is (distinct inputs by construction); outcome classes = distinct (object/edge/board counts | error message lists)",
+		Rule: "token strings over Σ_t (len ≤ 3 quick / 4 thorough); statement sequences over the full-language alphabet (every reserved keyword × 18 value shapes and × 5 forms with children/connections below the keyword, every style keyword × 7 shapes, d2-config keys × 10 shapes, 260 structural statements: globs × filters, vars/spreads, imports, boards, classes, underscores, special shapes) of length ≤ 2 and over the structural core of length ≤ 2 (quick) / 3 (thorough); all assignments of import statements to ≤3 files (every cycle length); non-ASCII names under glob patterns; a size family (14 generators × 10^1..10^4); corpus + single-token neighbours. Each compiled with an in-memory file set by d2compiler.Compile. Non-trivial: every compile is (distinct inputs by construction); outcome classes = distinct (object/edge/board counts | error message lists)",
 		Assumptions: []string{"the time clause is decided as a hang/blow-up detector (120 s per input, sizes up to 10^4), not as a proportionality measurement", "a worker death (stack overflow / OOM) is attributed to the input in flight", "nesting depth (boards, maps, key paths) is capped at 100 (quick) / 1000 (thorough) in the size family: compile time was measured quadratic in the nesting depth, which a hang detector cannot classify soundly"},
 		Oracles: map[string]eng.Oracle{"compile": c07Compile, "fileset": c07FileSet, "size": c07Size},
 		Run: func(w *eng.W) {
